@@ -30,8 +30,10 @@ def _shape(e: ast.AST) -> str:
 def _index_profile(f: FuncInfo) -> Dict[str, Set[str]]:
     me = f.params[0]
     prof: Dict[str, Set[str]] = {}
+    from .common import expand as _xp_k
+
     for d, k, how in key_sites(f, lambda e: self_attr(e, me) in REG_INDEXES):
-        prof.setdefault(self_attr(d, me), set()).add(_shape(k))  # type: ignore[arg-type]
+        prof.setdefault(self_attr(d, me), set()).add(_shape(_xp_k(f, k, 1) if isinstance(k, ast.Name) else k))  # type: ignore[arg-type]  # (a key that is a bare local is what the local names)
     # an index handed to a helper method: map the helper's keyed accesses on that parameter back to our arguments
     if f.cls is not None:
         for c in walk_local_ordered(f.node):
@@ -46,7 +48,8 @@ def _index_profile(f: FuncInfo) -> Dict[str, Set[str]]:
                 if idx in REG_INDEXES and i < len(hp):
                     for d, k, how in key_sites(helper, lambda e, pn=hp[i]: isinstance(e, ast.Name) and e.id == pn):
                         if isinstance(k, ast.Name) and k.id in hp and hp.index(k.id) < len(c.args):
-                            prof.setdefault(idx, set()).add(_shape(c.args[hp.index(k.id)]))
+                            a_k = c.args[hp.index(k.id)]
+                            prof.setdefault(idx, set()).add(_shape(_xp_k(f, a_k, 1) if isinstance(a_k, ast.Name) else a_k))
     return prof
 
 
